@@ -296,6 +296,7 @@ def _variant_of(fn, ty, val):
 
 def feasible_reach(fn, src, targets, avoid, limit=40000):
     targets, avoid = set(targets), set(avoid)
+    untracked = fn.mut_borrowed()
     start = (0, (), src == 0)
     seen = {start}
     work = [start]
@@ -338,7 +339,7 @@ def feasible_reach(fn, src, targets, avoid, limit=40000):
                 v0 = _vget(V, rv['pl']['l'])
                 if v0 and v0[0] == 'enum':
                     val = ('discof', rv['pl']['l'])
-            V = _vset(V, l, val)
+            V = _vset(V, l, None if l in untracked else val)
         t = b['term']
         if not t:
             continue
